@@ -70,7 +70,7 @@ Check (C09_decode_encode : forall fp o sizes inp bs inflate,
   exists ids outs sum data kept,
     bw_collect fp o sizes inp = Ok (ids, outs, sum, data)
     /\ incl kept (zoom_sizes_single o) /\ inc_from 0 kept
-    /\ decode bs inflate = Some (content_of fp o sizes ids outs sum kept)).
+    /\ decode bs inflate = Some (content_of fp o sizes ids outs sum 0 kept)).
 Check (C09_decode_encode_multipass : forall fp o sizes inp bs inflate,
   bw_write_multipass fp o sizes inp = Ok bs -> opts_ok o -> input_ok sizes inp -> Nlen bs < U64 ->
   Forall (fun c : name => c <> []) (map fst (runs inp)) ->
@@ -79,7 +79,27 @@ Check (C09_decode_encode_multipass : forall fp o sizes inp bs inflate,
   exists ids outs sum data kept,
     bw_collect fp o sizes inp = Ok (ids, outs, sum, data)
     /\ inc_from 0 kept
-    /\ decode bs inflate = Some (content_of fp o sizes ids outs sum kept)).
+    /\ decode bs inflate = Some (content_of fp o sizes ids outs sum 0 kept)).
+Check (C09_decode_encode_compressed : forall compress fp o sizes inp bs inflate,
+  bw_write_z compress fp o sizes inp = Ok bs -> opts_ok o -> input_ok sizes inp -> Nlen bs < U64 ->
+  Forall (fun c : name => c <> []) (map fst (runs inp)) ->
+  o_sort_all o = true ->
+  Forall (fun z => z < W32) (zoom_sizes_single o) ->
+  (forall b, compress b <> []) -> (o_compress o = true -> inflate_ok compress bs inflate) ->
+  exists ids outs sum data kept ubuf,
+    bw_collect fp o sizes inp = Ok (ids, outs, sum, data)
+    /\ incl kept (zoom_sizes_single o) /\ inc_from 0 kept /\ (ubuf = 0 <-> o_compress o = false)
+    /\ decode bs inflate = Some (content_of fp o sizes ids outs sum ubuf kept)).
+Check (C09_decode_encode_compressed_multipass : forall compress fp o sizes inp bs inflate,
+  bw_write_multipass_z compress fp o sizes inp = Ok bs -> opts_ok o -> input_ok sizes inp -> Nlen bs < U64 ->
+  Forall (fun c : name => c <> []) (map fst (runs inp)) ->
+  o_sort_all o = true ->
+  manual_u32 o ->
+  (forall b, compress b <> []) -> (o_compress o = true -> inflate_ok compress bs inflate) ->
+  exists ids outs sum data kept ubuf,
+    bw_collect fp o sizes inp = Ok (ids, outs, sum, data)
+    /\ inc_from 0 kept /\ (ubuf = 0 <-> o_compress o = false)
+    /\ decode bs inflate = Some (content_of fp o sizes ids outs sum ubuf kept)).
 Check (C09_decode_encode_lenient : forall fp o sizes inp bs inflate,
   bw_write fp o sizes inp = Ok bs \/ bw_write_multipass fp o sizes inp = Ok bs ->
   opts_ok o -> input_ok sizes inp -> Nlen bs < U64 ->
@@ -88,7 +108,7 @@ Check (C09_decode_encode_lenient : forall fp o sizes inp bs inflate,
   exists ids outs sum data kept,
     bw_collect fp o sizes inp = Ok (ids, outs, sum, data)
     /\ inc_from 0 kept
-    /\ decode_lenient bs inflate = Some (content_of fp o sizes ids outs sum kept)).
+    /\ decode_lenient bs inflate = Some (content_of fp o sizes ids outs sum 0 kept)).
 Check (C09_records_are_input : forall fp o sizes inp ids outs sum data,
   bw_collect fp o sizes inp = Ok (ids, outs, sum, data) -> recs_of outs = input_records ids inp).
 Check (C09_ids_first_appearance : forall fp o sizes inp ids outs sum data,
